@@ -396,6 +396,44 @@ fn maybe_yield(pm: u16, cx: &mut Context<'_>) -> bool {
     }
 }
 
+/// marker payload of the unwind that ends a spinning poll
+pub struct CoopSpin;
+pub const COOP_SPIN_LIMIT: u32 = 20_000;
+
+/// The transport's cooperative budget (Policy::coop). Returns true when the operation must be
+/// refused (the caller returns Pending).
+fn coop_gate(cx: &mut Context<'_>) -> bool {
+    let rt = rt();
+    let Some((budget, immediate)) = rt.policy.get().coop else { return false };
+    if rt.coop_used.get() < budget {
+        return false;
+    }
+    count("fault_coop_budget_exhausted");
+    if crate::live_trace() {
+        eprintln!("    coop budget {budget} exhausted (used {}, immediate {immediate})", rt.coop_used.get());
+    }
+    let n = rt.coop_refused.get() + 1;
+    rt.coop_refused.set(n);
+    if n >= COOP_SPIN_LIMIT {
+        // 20 000 refusals within one task poll: the code under test is looping on a transport
+        // that keeps telling it to yield. Unwind the poll so that the run can be judged.
+        rt.spin_pending.set(true);
+        std::panic::resume_unwind(Box::new(CoopSpin));
+    }
+    if immediate {
+        cx.waker().wake_by_ref();
+    } else {
+        defer_wake(cx.waker().clone());
+    }
+    true
+}
+fn coop_consume() {
+    let rt = rt();
+    if rt.policy.get().coop.is_some() {
+        rt.coop_used.set(rt.coop_used.get() + 1);
+    }
+}
+
 /// scheduler event: make in-flight bytes visible to the reader
 pub(crate) fn deliver(rt: &Rt, conn: usize, d: u8) {
     let c = rt.net.borrow().conns.get(conn).cloned();
@@ -490,6 +528,9 @@ impl Drop for Endpoint {
 
 fn do_read(conn: &Conn, side: usize, cx: &mut Context<'_>, out: &mut [u8]) -> Poll<io::Result<usize>> {
     let r = do_read_inner(conn, side, cx, out);
+    if r.is_ready() && !conn.io.lock().unwrap()[side].raw {
+        coop_consume();
+    }
     if crate::live_trace() {
         eprintln!("    read  conn {} side {} -> {:?}", conn.id, side, r);
     }
@@ -497,6 +538,9 @@ fn do_read(conn: &Conn, side: usize, cx: &mut Context<'_>, out: &mut [u8]) -> Po
 }
 fn do_read_inner(conn: &Conn, side: usize, cx: &mut Context<'_>, out: &mut [u8]) -> Poll<io::Result<usize>> {
     let io = conn.io.lock().unwrap()[side];
+    if !io.raw && coop_gate(cx) {
+        return Poll::Pending;
+    }
     if !io.raw && maybe_yield(io.yield_pm, cx) {
         return Poll::Pending;
     }
@@ -548,6 +592,9 @@ fn do_read_inner(conn: &Conn, side: usize, cx: &mut Context<'_>, out: &mut [u8])
 
 fn do_write(conn: &Conn, side: usize, cx: &mut Context<'_>, data: &[u8]) -> Poll<io::Result<usize>> {
     let r = do_write_inner(conn, side, cx, data);
+    if r.is_ready() && !conn.io.lock().unwrap()[side].raw {
+        coop_consume();
+    }
     if crate::live_trace() {
         eprintln!("    write conn {} side {} {}B -> {:?}", conn.id, side, data.len(), r);
     }
@@ -555,6 +602,12 @@ fn do_write(conn: &Conn, side: usize, cx: &mut Context<'_>, data: &[u8]) -> Poll
 }
 fn do_write_inner(conn: &Conn, side: usize, cx: &mut Context<'_>, data: &[u8]) -> Poll<io::Result<usize>> {
     let io = conn.io.lock().unwrap()[side];
+    // (a side marked as "accepts every write at once" - wyield_pm 0 - is exempt, like from the
+    // probabilistic write yields: PUB flushes with a no-op waker and would legitimately keep a tail)
+    if !io.raw && io.wyield_pm != 0 && coop_gate(cx) {
+        conn.dir(side).write_pendings += 1;
+        return Poll::Pending;
+    }
     if !io.raw && maybe_yield(io.wyield_pm, cx) {
         conn.dir(side).write_pendings += 1;
         return Poll::Pending;
